@@ -162,7 +162,7 @@ HasNumber(v) == CASE v.t = "num" -> TRUE
 (***************************************************************************)
 (* Evaluation                                                              *)
 (***************************************************************************)
-RECURSIVE Eval(_, _, _), EvalSeq(_, _, _, _, _), MapElems(_, _, _, _, _), Apply(_, _, _), EvalKvs(_, _, _, _, _),
+RECURSIVE Eval(_, _, _), EvalSeq(_, _, _, _, _), MapElems(_, _, _, _, _), Apply(_, _, _), ApplyExact(_, _, _), EvalKvs(_, _, _, _, _),
           KeysOf(_, _, _, _, _), ApplyBinding(_, _, _, _)
 
 Cmp(op, l, r) ==
@@ -172,6 +172,12 @@ Cmp(op, l, r) ==
        THEN CASE op = "lt" -> JBool(NumLess(l, r)) [] op = "le" -> JBool(NumLeq(l, r))
               [] op = "gt" -> JBool(NumLess(r, l)) [] op = "ge" -> JBool(NumLeq(r, l))
        ELSE JNull
+
+(* the comparison is one the model leaves open: '==' / '!=' on values that differ only in neighbouring doubles (the library's
+   equality is tolerant there, C10 speaks of "well-separated numbers"), an ordering of an inexact number against its own base *)
+CmpOpen(op, l, r) ==
+  IF op \in {"eq", "ne"} THEN EqOpen(l, r)
+  ELSE l.t = "num" /\ r.t = "num" /\ NumOrderOpen(l, r)
 
 (* evaluate a sequence of nodes left to right against v; the first error wins *)
 EvalSeq(nodes, i, v, REG, acc) ==
@@ -218,7 +224,7 @@ Eval(a, v, REG) ==
     [] n = "Comparison" -> LET l == Eval(a.l, v, REG) IN
                          IF IsVErr(l) THEN l
                          ELSE LET r == Eval(a.r, v, REG) IN
-                              IF IsVErr(r) THEN WithAmb(r, l.amb) ELSE VOkAmb(Cmp(a.op, l.ok, r.ok), l.amb \/ r.amb)
+                              IF IsVErr(r) THEN WithAmb(r, l.amb) ELSE VOkAmb(Cmp(a.op, l.ok, r.ok), l.amb \/ r.amb \/ CmpOpen(a.op, l.ok, r.ok))
     [] n = "ObjectValues" -> LET s == Eval(a.l, v, REG) IN
                          IF IsVErr(s) THEN s ELSE VOkAmb(IF s.ok.t = "obj" THEN JArr(ObjVals(s.ok)) ELSE JNull, s.amb)
     [] n = "Projection" -> LET s == Eval(a.l, v, REG) IN
@@ -254,7 +260,17 @@ Extreme(xs, keys, isMax) ==
       best == CHOOSE i \in DOMAIN keys : \A j \in DOMAIN keys : ~better(keys[j], keys[i]) /\ (keys[j] = keys[i] => i <= j)
   IN [i |-> best, tie |-> \E j \in DOMAIN keys : j # best /\ keys[j] = keys[best] /\ xs[j] # xs[best]]
 
-Apply(f, args, REG) ==
+(* order-sensitive built-ins on inexact numbers (results of sum / avg): which of two neighbours comes first is open *)
+ApplyOpen(f, args, o) ==
+  IF f \in {"sum", "avg"} /\ IsVOk(o) /\ Len(args) = 1 /\ args[1].t = "arr"
+     /\ \E i \in DOMAIN args[1].a : args[1].a[i].t = "num" /\ "p" \in DOMAIN args[1].a[i] /\ IsBig(args[1].a[i])
+  THEN WithAmb(o, TRUE)                                          \* arithmetic on large magnitudes: outside the model
+  ELSE IF f \in {"sort", "sort_by", "max", "min", "max_by", "min_by"} /\ IsVOk(o) /\ (HasInexact(o.ok) \/ \E i \in DOMAIN args : args[i].t # "expref" /\ HasInexact(args[i]))
+  THEN WithAmb(o, TRUE) ELSE o
+
+Apply(f, args, REG) == ApplyOpen(f, args, ApplyExact(f, args, REG))
+
+ApplyExact(f, args, REG) ==
   LET chk == Validate(f, args) IN
   IF chk = "type" /\ OnlyExprefToAny(f, args) THEN VOkAmb(JNull, TRUE)     \* unspecified cell: not judged
   ELSE IF chk # "ok" THEN VErr(chk)
@@ -262,10 +278,11 @@ Apply(f, args, REG) ==
   LET x == args[1] IN
   CASE f = "abs"   -> VOk(NumAbs(x))
     [] f = "avg"   -> VOk(IF x.a = <<>> THEN JNull ELSE NumDivInt(SumNums(x.a), Len(x.a)))
-    [] f = "ceil"  -> VOk(NumCeil(x))
-    [] f = "floor" -> VOk(NumFloor(x))
-    [] f = "contains" -> VOk(JBool(IF x.t = "arr" THEN \E i \in DOMAIN x.a : x.a[i] = args[2]
-                                  ELSE args[2].t = "str" /\ SeqContains(x.s, args[2].s)))
+    [] f = "ceil"  -> VOkAmb(NumCeil(x), RoundOpen(x))
+    [] f = "floor" -> VOkAmb(NumFloor(x), RoundOpen(x))
+    [] f = "contains" -> IF x.t = "arr"
+                         THEN VOkAmb(JBool(\E i \in DOMAIN x.a : x.a[i] = args[2]), \E i \in DOMAIN x.a : EqOpen(x.a[i], args[2]))
+                         ELSE VOk(JBool(args[2].t = "str" /\ SeqContains(x.s, args[2].s)))
     [] f = "ends_with"   -> VOk(JBool(SeqEndsWith(x.s, args[2].s)))
     [] f = "starts_with" -> VOk(JBool(SeqStartsWith(x.s, args[2].s)))
     [] f = "join"  -> VOk(JStr(JoinWith([i \in DOMAIN args[2].a |-> args[2].a[i].s], x.s)))
@@ -304,15 +321,30 @@ Apply(f, args, REG) ==
                           ELSE VOk(JStr(JsonText(x)))
     [] f = "type"  -> VOk(JStr(TypeCps(TypeName(x))))
 
-(* a custom function declared with the signature (number): validated like a built-in before it is invoked *)
-SigConstValidate(args) == IF Len(args) # 1 THEN "arity" ELSE IF args[1].t = "num" THEN "ok" ELSE "type"
-CustomInvoked(b, args) == b.k \in {"const", "first"} \/ (b.k = "sigconst" /\ SigConstValidate(args) = "ok")
+(* custom functions declared with a signature (CustomFunction::new): validated like a built-in before the closure is invoked.
+   Declared parameter types may nest (functions.rs ArgumentType: TypedArray(inner), Union(alternatives), Any):
+     "sigconst" (number)   "sigaan" (array[array[number]])   "sigaun" (array[number|string])   "sigaany" (array[any]) *)
+SigKinds == {"sigconst", "sigaan", "sigaun", "sigaany"}
+TyNum == [k |-> "num"]  TyStr == [k |-> "str"]  TyAny == [k |-> "any"]
+TyArr(of) == [k |-> "arr", of |-> of]
+TyUnion(alts) == [k |-> "union", alts |-> alts]
+CustomSig(kind) == CASE kind = "sigconst" -> TyNum [] kind = "sigaan" -> TyArr(TyArr(TyNum))
+                     [] kind = "sigaun" -> TyArr(TyUnion(<<TyNum, TyStr>>)) [] kind = "sigaany" -> TyArr(TyAny)
+RECURSIVE TFits(_, _)
+TFits(v, ty) == CASE ty.k = "any" -> TRUE
+                  [] ty.k = "num" -> v.t = "num"
+                  [] ty.k = "str" -> v.t = "str"
+                  [] ty.k = "arr" -> v.t = "arr" /\ \A i \in DOMAIN v.a : TFits(v.a[i], ty.of)
+                  [] ty.k = "union" -> \E j \in DOMAIN ty.alts : TFits(v, ty.alts[j])
+SigValidate(kind, args) == IF Len(args) # 1 THEN "arity" ELSE IF TFits(args[1], CustomSig(kind)) THEN "ok" ELSE "type"
+SigConstValidate(args) == SigValidate("sigconst", args)
+CustomInvoked(b, args) == b.k \in {"const", "first"} \/ (b.k \in SigKinds /\ SigValidate(b.k, args) = "ok")
 
 ApplyBinding(b, name, args, REG) ==
   CASE b.k = "builtin" -> Apply(FnOf(name), args, REG)
     [] b.k = "const" -> VOk(JInt(b.id))
     [] b.k = "first" -> VOk(IF args = <<>> THEN JNull ELSE args[1])
-    [] b.k = "sigconst" -> LET c == SigConstValidate(args) IN IF c = "ok" THEN VOk(JInt(b.id)) ELSE VErr(c)
+    [] b.k \in SigKinds -> LET c == SigValidate(b.k, args) IN IF c = "ok" THEN VOk(JInt(b.id)) ELSE VErr(c)
 
 BuiltinNames == {NameCps(FnNames[i]) : i \in DOMAIN FnNames}
 Builtins == [nm \in BuiltinNames |-> [k |-> "builtin"]]
